@@ -5,7 +5,7 @@
     tables are hand-written (theories/Conc/PoolFieldClass.v). *)
 From Coq Require Import String List Bool.
 From Webp Require Import Conc.PoolModel Conc.PoolFieldClass Conc.PoolSkel Conc.PoolProofs.
-From WebpGen Require Fields Skel Owner.
+From WebpGen Require Fields Skel Owner Globals.
 Import ListNotations.
 Open Scope string_scope.
 Open Scope list_scope.
@@ -261,10 +261,12 @@ Print Assumptions C11_history_independent_all_pooled_types.
 
 (** soundness of the analysis, for every skeleton environment, fuel and skeleton: if it
     does not answer [Bad], the first access of every admitted trace is a complete
-    overwrite (or there is no access) *)
+    overwrite (or there is no access).  Traces range over all branches, loop counts,
+    call depths, early returns and - for ifs that test a never-reassigned parameter
+    (IfC) - all valuations of those guards, each activation of a callee having its own *)
 Theorem C11_wbr_analysis_sound :
-  forall (env : string -> sk) (fuel : nat) (s : sk),
-    check env fuel s <> Bad -> forall t, den env s t -> safe t.
+  forall (env : string -> sk) (fuel : nat) (rho : string -> bool) (s : sk),
+    check env fuel rho s <> Bad -> forall t, den env rho s t -> safe t.
 Proof. exact check_sound. Qed.
 Print Assumptions C11_wbr_analysis_sound.
 
@@ -272,7 +274,7 @@ Print Assumptions C11_wbr_analysis_sound.
     source are exactly the listed ones (a read sneaking in before the fill, a dropped
     fill loop, a new early access from another function all change the left side) *)
 Theorem C11_wbr_decided_fields :
-  wbr_computed "lossy.VP8Encoder." class_VP8Encoder = ["topNz"; "topNzDC"; "itTopY"; "itTopU"; "itTopV"; "itTopNZ"] /\
+  wbr_computed "lossy.VP8Encoder." class_VP8Encoder = ["topNz"; "topNzDC"; "statTopNz"; "statTopNzDC"; "itTopY"; "itTopU"; "itTopV"; "itTopNZ"] /\
   wbr_computed "lossy.Decoder." class_lossy_Decoder = ["cacheYOff"; "cacheUOff"; "cacheVOff"; "dcScratch"] /\
   wbr_computed "lossy.parallelState." class_parallelState = ["topY"; "topU"; "topV"; "topModes"; "topNz"; "topNzDC"] /\
   wbr_computed "lossy.TokenBuffer." class_TokenBuffer = [] /\
@@ -281,11 +283,29 @@ Theorem C11_wbr_decided_fields :
 Proof. exact wbr_decided_fields. Qed.
 Print Assumptions C11_wbr_decided_fields.
 
+(** the skeletons do not name the object: every function of the package reaches a pooled
+    object of a given type through ONE expression (receiver, parameter, the local bound
+    at the acquisition, or a fixed field path from it), never through an element of a
+    slice of such objects - so all accesses along a call chain concern the object
+    acquired at its top.  Only exception: MBIterator.FillPredContext(enc) also reads the
+    back pointer it.enc, which InitIterator sets to the same encoder. *)
+Theorem C11_single_instance_per_function :
+  inst_ok WebpGen.Skel.inst_lossy_VP8Encoder ["MBIterator.FillPredContext"] = true /\
+  inst_ok WebpGen.Skel.inst_lossy_TokenBuffer [] = true /\
+  inst_ok WebpGen.Skel.inst_lossy_Decoder [] = true /\
+  inst_ok WebpGen.Skel.inst_lossy_parallelState [] = true /\
+  inst_ok WebpGen.Skel.inst_lossless_Encoder [] = true /\
+  inst_ok WebpGen.Skel.inst_lossless_Decoder [] = true /\
+  filter (fun p => String.eqb (fst p) "MBIterator.FillPredContext") WebpGen.Skel.inst_lossy_VP8Encoder
+    = [("MBIterator.FillPredContext", "enc"); ("MBIterator.FillPredContext", "it.enc")].
+Proof. exact single_instance_per_function. Qed.
+Print Assumptions C11_single_instance_per_function.
+
 (** for each of them, every access trace any entry point of the package admits is safe *)
 Theorem C11_wbr_field_safe :
   forall prefix cls f, In f (wbr_computed prefix cls) ->
-  forall r t, In r (se_roots (skel_of prefix f)) ->
-              den (env_of (se_env (skel_of prefix f))) (Call r) t -> safe t.
+  forall r rho t, In r (se_roots (skel_of prefix f)) ->
+                  den (env_of (se_env (skel_of prefix f))) rho (Call r) t -> safe t.
 Proof. exact wbr_field_safe. Qed.
 Print Assumptions C11_wbr_field_safe.
 
@@ -346,6 +366,18 @@ Theorem C11_returned_values_fresh :
   forallb (fun r => existsb (fun q => String.eqb (fst q) r) WebpGen.Owner.owner_sites) api_return_roots = true.
 Proof. exact returned_values_fresh. Qed.
 Print Assumptions C11_returned_values_fresh.
+
+(** * global tables: every write to a package-level variable of the module happens in an
+    init function, inside (sync.Once).Do, or in a function reachable only from those;
+    the written variables are the modelled tables; the run-time mutable synchronisation
+    objects are exactly the modelled sync.Pools and Once guards *)
+Theorem C11_globals_written_only_at_init :
+  forallb global_write_ok WebpGen.Globals.global_writes = true /\
+  subset (map fst WebpGen.Globals.global_writes) written_globals = true /\
+  subset written_globals (map fst WebpGen.Globals.global_writes) = true /\
+  WebpGen.Globals.sync_globals = modelled_sync_globals.
+Proof. exact globals_written_only_at_init. Qed.
+Print Assumptions C11_globals_written_only_at_init.
 
 (** the hypotheses are satisfiable and each is needed: a two-field instance where the
     theorem applies, and the same instance with the reset line deleted, for which
